@@ -71,6 +71,15 @@ func c16Ops(u *nodelite.Universe, thorough bool) []c16Op {
 	return ops
 }
 
+func c16Has(l []string, s string) bool {
+	for _, e := range l {
+		if e == s {
+			return true
+		}
+	}
+	return false
+}
+
 func c16Set(m map[string]bool) string {
 	var ks []string
 	for k := range m {
@@ -243,13 +252,15 @@ func TestVerifC16(t *testing.T) {
 				for _, e := range s1.GC {
 					still := false
 					for _, e2 := range s2.GC {
-						if e2.Root == e.Root {
+						// entries are identified by root AND access time: after delete + re-cache a root can
+						// have a stale and a fresh entry, and the run may take either
+						if e2.Root == e.Root && e2.TS == e.TS {
 							still = true
 						}
 					}
 					if !still {
 						for _, f := range u.Files {
-							if u.Name(f.Root) == e.Root {
+							if u.Name(f.Root) == e.Root && !c16Has(gone, f.Name) {
 								gone = append(gone, f.Name)
 							}
 						}
